@@ -31,7 +31,7 @@ struct Solo {
     std::vector<std::vector<OpResult>> res; // [task][op]
     uint64_t events = 0;
 };
-static void run_solo(const Plan &plan, Solo &s, int only_task = -1) {
+static void run_solo(const Plan &plan, Solo &s, int only_task = -1, bool renew = false) {
     s.res.assign(plan.tasks.size(), {});
     s.events = 0;
     for (size_t t = 0; t < plan.tasks.size(); t++) {
@@ -40,7 +40,9 @@ static void run_solo(const Plan &plan, Solo &s, int only_task = -1) {
         empty.start = (int)t;
         ReplayStrategy st(empty, (int)plan.tasks.size());
         PassResult pr;
-        run_pass(plan, api_cfg(PASS_SOLO, (int)t, true), st, pr);
+        PassCfg cfg = api_cfg(PASS_SOLO, (int)t, !renew);
+        cfg.renew_threads = renew;
+        run_pass(plan, cfg, st, pr);
         s.res[t] = pr.res[t];
         s.events += pr.events;
     }
@@ -95,6 +97,20 @@ static std::string interference_key(const Plan &plan, const Solo &solo, const Mi
         }
     }
     return std::string("interference:") + g_fn[op.fn].name + ":" + objs;
+}
+
+// oracle H on a one-task plan: the last call differs between the plain solo pass and the pass with thread renewal
+static bool carry_over_fails(const Plan &p, const std::string &key, int *which = nullptr) {
+    Solo a, b;
+    run_solo(p, a);
+    run_solo(p, b, -1, true);
+    for (size_t t = 0; t < p.tasks.size(); t++)
+        for (size_t o = 1; o < p.tasks[t].ops.size(); o++)
+            if ((!b.res[t][o].done || a.res[t][o].digest != b.res[t][o].digest) && std::string("carry-over:") + g_fn[p.tasks[t].ops[o].fn].name == key) {
+                if (which) *which = (int)o;
+                return true;
+            }
+    return false;
 }
 
 // ------------------------------------------------------------------ plan surgery for minimisation
@@ -326,7 +342,7 @@ struct C12Stats {
     uint64_t fn_preempted[FN_COUNT] = {0};
     uint64_t fn_same_conflict[FN_COUNT] = {0};
     uint64_t faults_alloc = 0, faults_wr = 0, faults_rd = 0;
-    uint64_t unstable = 0, nondeterministic = 0, footprint_ops = 0, mismatches = 0;
+    uint64_t unstable = 0, nondeterministic = 0, footprint_ops = 0, mismatches = 0, carry_ops = 0;
     uint64_t det_checked = 0;
     std::set<uint64_t> fingerprints; // nontrivial schedule executions
     std::set<uint64_t> triples;
@@ -368,7 +384,7 @@ static void flush_stats(C12Stats &st, const Args &a) {
     auto add = [&](const char *k, uint64_t v) { s += (s.size() > 1 ? "," : "") + std::string("\"") + k + "\":" + std::to_string(v); };
     add("adjacent_plans", st.adjacent_plans); add("plans", st.plans); add("sched_exec", st.sched_exec); add("events", st.events); add("switches", st.switches);
     add("inner_switches", st.inner_switches); add("ops", st.ops); add("unstable", st.unstable); add("nondeterministic", st.nondeterministic);
-    add("det_checked", st.det_checked); add("footprint_ops", st.footprint_ops); add("mismatches", st.mismatches);
+    add("det_checked", st.det_checked); add("footprint_ops", st.footprint_ops); add("carry_ops", st.carry_ops); add("mismatches", st.mismatches);
     add("faults_alloc", st.faults_alloc); add("faults_wr", st.faults_wr); add("faults_rd", st.faults_rd);
     add("strat_sequential", st.strat[0]); add("strat_uniform", st.strat[1]); add("strat_pct", st.strat[2]); add("strat_targeted", st.strat[3]);
     s += ",\"fam_ops\":{";
@@ -508,6 +524,46 @@ int c12_batch(const Args &a) {
                     emit_violation(st, "footprint", key, path, i, std::string(g_fn[op.fn].name) + " changes the library's static object " + g_lib.sym_key(k));
                 }
             }
+        // ---- oracle H: no state carried from call to call inside a thread. Each task is run alone once more, with
+        // the library's per-thread state (its thread-local block, values under keys it created) put back to that of
+        // a newly created thread before every call; every call must produce what it produced in the plain solo pass.
+        // (Static storage needs no such pass: S demands it bit-identical around every call.)
+        {
+            bool multi = false;
+            for (auto &tp : plan.tasks) multi |= tp.ops.size() > 1;
+            if (multi) {
+                g_cur_phase = "renew";
+                Solo fresh;
+                run_solo(plan, fresh, -1, true);
+                for (size_t t = 0; t < plan.tasks.size(); t++)
+                    for (size_t o = 1; o < plan.tasks[t].ops.size(); o++) {
+                        st.carry_ops++;
+                        if (fresh.res[t][o].done && fresh.res[t][o].digest == solo.res[t][o].digest) continue;
+                        const Op &op = plan.tasks[t].ops[o];
+                        std::string key = std::string("carry-over:") + g_fn[op.fn].name;
+                        uint64_t &cnt = st.viol_count[key];
+                        if (cnt++ >= (uint64_t)per_key_cap) break;
+                        // minimal witness: this task alone, calls up to the victim; then drop earlier calls greedily
+                        Plan p1;
+                        p1.locale = plan.locale;
+                        p1.tasks.push_back(plan.tasks[t]);
+                        p1.tasks[0].ops.resize(o + 1);
+                        if (!carry_over_fails(p1, key)) { cnt--; st.unstable++; printf("UNSTABLE {\"run\":%llu,\"key\":%s}\n", (unsigned long long)i, jstr(key).c_str()); break; }
+                        for (size_t d = 0; p1.tasks[0].ops.size() > 2 && d + 1 < p1.tasks[0].ops.size();) {
+                            Plan p2 = p1;
+                            p2.tasks[0].ops.erase(p2.tasks[0].ops.begin() + d);
+                            if (carry_over_fails(p2, key)) p1 = p2; else d++;
+                        }
+                        Schedule none;
+                        std::string path = write_replay("C12", "carry-over", key, a.seed, i, p1, none, std::string("function ") + g_fn[op.fn].name + "\n");
+                        st.viol_replay[key] = path;
+                        emit_violation(st, "carry-over", key, path, i,
+                                       std::string(g_fn[op.fn].name) + " gives a different result after earlier calls of the same thread than in a thread that has made none (" +
+                                           std::to_string(p1.tasks[0].ops.size()) + " calls after minimisation): the library keeps per-thread state between calls");
+                        break;
+                    }
+            }
+        }
         // ---- oracle I
         g_cur_phase = "conc";
         printf("BEGIN %llu conc\n", (unsigned long long)i);
@@ -732,6 +788,21 @@ int c12_replay(const std::string &path) {
         printf("NOT-REPRODUCED property=C12 key=%s\n", key.c_str());
         return 0;
     }
+    if (cls == "carry-over") {
+        int which = -1;
+        bool a1 = carry_over_fails(plan, key, &which), a2 = carry_over_fails(plan, key, &which);
+        if (a1 && a2) {
+            Solo a, b;
+            run_solo(plan, a);
+            run_solo(plan, b, -1, true);
+            printf("REPRODUCED property=C12 class=carry-over key=%s victim=task0/op%d\n", key.c_str(), which);
+            printf("  after the earlier calls: ret=%lld errno=%d digest=%016llx\n", (long long)a.res[0][which].ret, a.res[0][which].err, (unsigned long long)a.res[0][which].digest);
+            printf("  in a renewed thread:     ret=%lld errno=%d digest=%016llx\n", (long long)b.res[0][which].ret, b.res[0][which].err, (unsigned long long)b.res[0][which].digest);
+            return 1;
+        }
+        printf("NOT-REPRODUCED property=C12 key=%s (a1=%d a2=%d)\n", key.c_str(), a1, a2);
+        return 0;
+    }
     if (cls == "interference") {
         int fn = meta["function"] == "*" ? -1 : fn_by_name(meta["function"].c_str());
         Mismatch mm;
@@ -761,10 +832,10 @@ int c12_replay(const std::string &path) {
     if (cls == "crash") {
         // re-execute exactly; a crash ends the process through the fatal-signal handler (exit code 100+signal)
         std::string phase = meta["phase"];
-        if (phase == "solo") {
+        if (phase == "solo" || phase == "renew") {
             int t = atoi(meta["solo_task"].c_str());
             Solo s;
-            run_solo(plan, s, t);
+            run_solo(plan, s, t, phase == "renew");
         } else {
             ReplayStrategy st(sched, (int)plan.tasks.size());
             PassResult pr;
